@@ -192,8 +192,59 @@ def _worker(histories):
                 rep.violation({"kind": "isolation", "what": which[0][:30]}, "history %r: %s" % (list(hist), "; ".join(which)), wit(m))
             elif st == "unknown":
                 rep.inconc("isolation undecided for %r" % (hist,))
+    if () in histories:
+        states_, trans_ = _shared_config(R, rep, w, sym, assume_all)
+        states += states_
+        trans += trans_
     rep.sample({"histories": len(histories), "example": list(histories[0]) if histories else None})
     return dict(violations=rep.violations, inconclusive=rep.inconclusive, errors=rep.harness_errors, samples=rep.samples, stats=explorer.STATS, states=states, trans=trans)
+
+
+CONFIGS = [("exclude_pgns", [60928, 127250]), ("include_pgns", [60928, 127250, 129029]), ("exclude_pgns", [60928, "vesselHeading"]),
+           ("include_pgns", ["isoAddressClaim", 129029])]
+
+
+def _shared_config(R, rep, w, sym, assume):
+    """two decoders configured from the SAME caller-owned filter list: the second behaves like one given its own copy of the
+    list, and the caller's list is left as it was (a decoder that edits or keeps editing the caller's list couples instances)"""
+    states = trans = 0
+    for ci, (kw, lst) in enumerate(CONFIGS):
+        def h():
+            ref = R.decoder.NMEA2000Decoder(**{kw: list(lst)})
+            r0 = [None if x is None else msg_summary(x) for x in feed(ref, w, "claim1", "a") + probes(R, ref, w, sym)]
+            L = list(lst)
+            R.decoder.NMEA2000Decoder(**{kw: L})
+            d2 = R.decoder.NMEA2000Decoder(**{kw: L})
+            r2 = [None if x is None else msg_summary(x) for x in feed(d2, w, "claim1", "a") + probes(R, d2, w, sym)]
+            return r0, r2, list(L)
+        try:
+            paths, ex = explore(h, max_paths=256, assumptions=assume)
+        except Unsupported as e:
+            rep.inconc("shared configuration %r: %s" % ((kw, lst), e))
+            continue
+        for pa in paths:
+            st0, m0 = satisfiable(z3.And(pa.cond(), *assume))
+            if st0 != "sat":
+                continue
+            states += 1
+            trans += 8
+            wit = {"kind": "shared-config", "config": ci, "sa": m0.eval(w.sa, True).as_long(), "sb": m0.eval(w.sb, True).as_long(), "head": m0.eval(w.head, True).as_long(),
+                   "soc": m0.eval(w.soc, True).as_long(), "hseq": 0, "pseq": m0.eval(sym["pseq"], True).as_long(), "hbytes": [0] * 6, "history": []}
+            if pa.kind != "return":
+                rep.violation({"kind": "shared-config-raise"}, "decoders built from one caller-owned %s list: raised %r" % (kw, pa.value), wit)
+                continue
+            r0, r2, L = pa.value
+            if L != list(lst):
+                rep.violation({"kind": "shared-config-list"}, "constructing a decoder changed the caller's %s list %r into %r" % (kw, lst, L), wit)
+                continue
+            st, m = prove(z3.And(*[eq_any(a, b) for a, b in zip(r0, r2)]), assume + pa.pc, label="shared-config")
+            if st == "sat":
+                wit.update(sa=m.eval(w.sa, True).as_long(), sb=m.eval(w.sb, True).as_long(), head=m.eval(w.head, True).as_long(), soc=m.eval(w.soc, True).as_long(),
+                           pseq=m.eval(sym["pseq"], True).as_long())
+                rep.violation({"kind": "shared-config"}, "the second decoder built from one caller-owned %s list %r does not behave like a decoder given its own copy" % (kw, lst), wit)
+            elif st == "unknown":
+                rep.inconc("shared configuration %r undecided" % ((kw, lst),))
+    return states, trans
 
 
 def run(tier, seed):
@@ -304,6 +355,22 @@ def replay(r):
                 None if m.source_iso_name is None else m.source_iso_name.name, m.hash)
     GOOD = 1234 | (229 << 21) | (130 << 40) | (10 << 49) | (4 << 60)
     BAD = 4321 | (137 << 21) | (130 << 40) | (10 << 49) | (14 << 56) | (4 << 60)        # system instance 14: outside its range
+
+    if r.get("kind") == "shared-config":
+        kw, lst = CONFIGS[r["config"]]
+
+        def run_(d_):
+            return [summ(d_._decode(60928, 6, src("a"), 255, TS, GOOD.to_bytes(8, "little")[::-1], b""))] + [summ(x) for x in probes_(d_)]
+        try:
+            r0 = run_(N.decoder.NMEA2000Decoder(**{kw: list(lst)}))
+            L = list(lst)
+            N.decoder.NMEA2000Decoder(**{kw: L})
+            r2 = run_(N.decoder.NMEA2000Decoder(**{kw: L}))
+        except Exception as e:
+            return True, "raised %r" % (e,)
+        if L != list(lst):
+            return True, "caller's list is now %r" % (L,)
+        return r0 != r2, "own copy: %r; shared list, second decoder: %r" % (r0, r2)
 
     def newdec():
         d_ = N.decoder.NMEA2000Decoder()
